@@ -89,3 +89,55 @@ Definition tmodel_view (c : tcase) (k : nat) :=
              dependencies (parse_uuid_tab (tc_uuids c)) t)
    | None => None
    end).
+
+(** ** expiration (C20) *)
+Record ecase := {
+  ec_min : Z; ec_max : Z; ec_now : Z;
+  ec_tasks : list (N * list (list N * list N));
+  ec_after : list N                                 (* the tasks that survive expire_tasks *)
+}.
+
+Definition check_ecase (c : ecase) : N :=
+  let after := expire_tasks (ec_min c) (ec_max c) (ec_now c) (tasks_of (ec_tasks c)) in
+  if bool_decide (dom after = (list_to_set (ec_after c) : gset N)) then 0%N else 1%N.
+Definition wf_ecase (c : ecase) : bool := true.
+Definition emodel_view (c : ecase) (k : nat) :=
+  map fst (map_to_list (expire_tasks (ec_min c) (ec_max c) (ec_now c) (tasks_of (ec_tasks c)))).
+
+(** ** mutators (C19) *)
+From TC Require Export Model.TaskMut.
+
+Record mcase := {
+  mc_now : list N;                                       (* the canonical "now" string *)
+  mc_init : list (list N * list N);                      (* the task as stored before *)
+  mc_steps : list (mutator * bool);                      (* each call and whether it was accepted *)
+  mc_held : list (list N * list N);                      (* the task the caller holds afterwards *)
+  mc_log : list (list N * option (list N) * option (list N))   (* recorded updates *)
+}.
+
+Fixpoint run_steps (nowstr : list N) (s : tstate) (k : N) (l : list (mutator * bool)) : tstate + N :=
+  match l with
+  | [] => inl s
+  | (m, ok) :: l' =>
+      match run_mutator nowstr s m with
+      | Some s' => if ok then run_steps nowstr s' (k + 1)%N l' else inr (k + 1)%N
+      | None => if ok then inr (k + 1)%N else run_steps nowstr s (k + 1)%N l'
+      end
+  end.
+
+(** 0 = agreement; k = the k-th call was accepted/refused differently;
+    1000 = held task differs; 2000 = recorded updates differ *)
+Definition check_mcase (c : mcase) : N :=
+  match run_steps (mc_now c) {| ts_map := list_to_map (mc_init c); ts_um := false; ts_log := [] |} 0%N (mc_steps c) with
+  | inr k => k
+  | inl s =>
+      if negb (bool_decide (ts_map s = list_to_map (mc_held c))) then 1000%N
+      else if negb (bool_decide (ts_log s = mc_log c)) then 2000%N
+      else 0%N
+  end.
+Definition wf_mcase (c : mcase) : bool := true.
+Definition mmodel_view (c : mcase) (k : nat) :=
+  match run_steps (mc_now c) {| ts_map := list_to_map (mc_init c); ts_um := false; ts_log := [] |} 0%N (mc_steps c) with
+  | inl s => (map_to_list (ts_map s), ts_log s)
+  | inr _ => ([], [])
+  end.
